@@ -359,7 +359,7 @@ theorem processVote_core (h : Header) {s : St} {rl : KMap Delegatee} {v : VoteIn
         simpa [St.core, Led.set] using this
 
 /-- the tail of `beginBlock` after the evidence has been handled (votes: rewards, marks, jailing) -/
-def bbVotes (s : St) (h : Header) (punishG punishS : List Int) : St × Out :=
+def bbVotesC (s : St) (h : Header) (punishG punishS : List Int) : St × Out :=
   if h.votes.isEmpty then (s, { punishG := punishG }) else
   let hop : Int := if h.height - 4 < 0 then 1 else h.height - 4
   match s.delegs.at? hop with
@@ -374,7 +374,7 @@ def bbVotes (s : St) (h : Header) (punishG punishS : List Int) : St × Out :=
     | .ok (s', issued) => (s', { issued := some issued, punishS := punishS, punishG := punishG })
 
 /-- the stake controller's part of `beginBlock` -/
-def bbStake (s : St) (h : Header) (punishG : List Int) : St × Out :=
+def bbStakeC (s : St) (h : Header) (punishG : List Int) : St × Out :=
   match amountToPower s.active.minValidatorStake with
   | .panic p => (s, { panic := p })
   | .ok minPower =>
@@ -385,17 +385,17 @@ def bbStake (s : St) (h : Header) (punishG : List Int) : St × Out :=
     match stakePunish acc a with
     | (acc', some sl) => (acc', l ++ [sl])
     | (acc', none) => (acc', l)) (s, [])
-  bbVotes x.1 h punishG x.2
+  bbVotesC x.1 h punishG x.2
 
-theorem beginBlock_eq (s : St) (h : Header) : beginBlock s h =
+theorem beginBlock_eqC (s : St) (h : Header) : beginBlock s h =
     if h.height ≠ s.lastHeight + 1 then (s, { panic := "BeginBlock: error block height" }) else
     let s1 := { s with blk := some { height := h.height, time := h.time, proposer := h.proposer } }
     let g := h.evidence.foldl (fun (acc, l) a => let (acc', sl) := govPunish acc a; (acc', l ++ [sl])) (s1, [])
-    bbStake g.1 h g.2 := rfl
+    bbStakeC g.1 h g.2 := rfl
 
 theorem bbVotes_core (s : St) (h : Header) (pg ps : List Int) :
-    Steps (BeginAtom h) s.core (bbVotes s h pg ps).1.core := by
-  unfold bbVotes
+    Steps (BeginAtom h) s.core (bbVotesC s h pg ps).1.core := by
+  unfold bbVotesC
   split
   · exact .refl _
   · dsimp only
@@ -414,8 +414,8 @@ theorem bbVotes_core (s : St) (h : Header) (pg ps : List Int) :
         exact hc
 
 theorem bbStake_core (s : St) (h : Header) (pg : List Int) :
-    Steps (BeginAtom h) s.core (bbStake s h pg).1.core := by
-  unfold bbStake
+    Steps (BeginAtom h) s.core (bbStakeC s h pg).1.core := by
+  unfold bbStakeC
   split
   · exact .refl _
   · dsimp only
@@ -429,7 +429,7 @@ theorem bbStake_core (s : St) (h : Header) (pg : List Int) :
       · rename_i acc' hsp; rw [hsp] at this; exact this
 
 theorem beginBlock_core {nk : List Hex} (s : St) (h : Header) : OpCore nk (.begin_ h) s.core (beginBlock s h).1.core := by
-  rw [beginBlock_eq]
+  rw [beginBlock_eqC]
   split
   · exact .same _ _ (by first | (intro h; cases h) | simp_all [St.core])
   · rename_i hht
